@@ -92,6 +92,7 @@ func verifC14Literals() {
 	long := strings.Repeat("a", 64)
 	big := strings.Repeat("abcdefg.", 33) // 264 bytes
 	forms := []string{"192.0.2.1", "192.0.2.1:8443", "[2001:db8::1]:443", "2001:db8::1", "localhost", "localhost:80",
+		"https://[2001:db8::1]/", "https://[2001:db8::1]:8443/x", "[2001:db8::1]", "https://192.0.2.1/", "http://192.0.2.1:8080/",
 		long + ".example.com", big + "com", "example.com:8443x", strings.Repeat("s", 64) + "://example.com", strings.Repeat("s", 300) + "://example.com:99",
 		strings.Repeat("s", 62) + "://example.com", strings.Repeat("s", 63) + "://example.com", strings.Repeat("a", 63) + ".example.com", strings.Repeat("s", 63) + "://example.com:8443"}
 	i := vInt(0, len(forms)-1)
@@ -101,9 +102,9 @@ func verifC14Literals() {
 	r := &Resolver{}
 	res, err := r.Resolve(context.Background(), forms[i])
 	switch {
-	case i <= 5:
+	case i <= 10:
 		vAssert(err == nil && len(z.queries) == 0 && len(res.Address) >= 1, "literals and localhost resolve without queries")
-	case i <= 7:
+	case i <= 12:
 		vAssert(errors.Is(err, ErrInvalidName) && len(z.queries) == 0, "over-long label or name refused with ErrInvalidName, no query")
 	default:
 		// odd port text / over-long scheme: an error or a query with legal labels, never a panic
